@@ -116,6 +116,28 @@ META_COMMENTS = ["[&m=1]", "[&a=1,b=2]", "[&r={1,2}]", "[&s=\"x y\"]", "[&&NHX:S
                  "[&!color=#ff0000]", "[&b=true]"]
 WS = [" ", " ", " ", "\n", "\t", "  ", "\r\n", " \n "]
 
+META_KEYS = ["support", "x", "rate", "!color", "height_95%_HPD", "a b", "k", "posterior", ""]
+META_VALUES = ["1", "0.95", "-1e-3", "abc", "\"x y\"", "{1,2}", "{0.1,0.2,0.3}", "{a}", "{}", "true", "FALSE", "'q'",
+               "#ff0000", "", "", " ", "  ", "\t", "{1,2", "1,2}", "{", "}", "{{1},2}", "{ }", "=", "a=b", "\"", "{,}",
+               " {1,2} ", "1 2"]
+
+
+@st.composite
+def meta_comments(draw):
+    """A metadata comment '[&key=value,...]' (FigTree style) or '[&&NHX:key=value:...]': 1-3 pairs; values are numbers,
+    words, quoted strings, {a,b} lists, and the degenerate forms an interrupted or hand-edited file has - empty,
+    blank-only, unbalanced or stray braces, stray '=' and quotes; blanks around '=' and ','.  Comments are free text: a
+    reader must accept a document whatever its comments hold."""
+    nhx = draw(st.integers(0, 5)) == 0
+    pairs = []
+    for _ in range(draw(st.sampled_from([1, 1, 1, 2, 2, 3]))):
+        key = draw(st.sampled_from(META_KEYS))
+        val = draw(st.sampled_from(META_VALUES))
+        form = draw(st.sampled_from(["%s=%s", "%s=%s", "%s = %s", "%s= %s", "%s =%s"]))
+        pairs.append(form % (key, val) if draw(st.integers(0, 9)) else key)
+    sep = ":" if nhx else draw(st.sampled_from([",", ",", ", ", " ,"]))
+    return ("[&&NHX:" if nhx else "[&") + sep.join(pairs) + "]"
+
 
 @st.composite
 def _ws(draw, fancy):
@@ -172,6 +194,10 @@ def tree_specs(draw, taxa, max_leaves=6, fancy=True, blanks=True):
     """A tree over a subset of the taxon indices `taxa` (list of ints): returns the lib/shapes spec with lengths and
     internal labels filled in; the written forms are kept under the private keys "_len" and "_lab"."""
     n = draw(st.integers(1, min(max_leaves, len(taxa))))
+    # comments are drawn before the shape (draws late in a big document come out minimal too often)
+    extra_comments = draw(st.lists(st.one_of(meta_comments(), meta_comments(), st.sampled_from(COMMENTS + META_COMMENTS)),
+                                   max_size=3)) if fancy else []
+    comment_spots = [draw(st.integers(0, 63)) for _ in extra_comments]
     spec = draw(shapes.shapes(min_leaves=n, max_leaves=n, max_arity=4, unifurcations=fancy))
     perm = list(draw(st.permutations(list(taxa))))
     lenpat = draw(st.sampled_from(["none", "all", "all", "partial"]))
@@ -193,6 +219,8 @@ def tree_specs(draw, taxa, max_leaves=6, fancy=True, blanks=True):
             s["_lab"], s["lab"] = draw(st.sampled_from(INTERNAL_LABELS))
         if fancy and draw(st.integers(0, 9)) == 0:
             s["_cm"] = draw(st.sampled_from(COMMENTS + META_COMMENTS))
+    for cm, spot in zip(extra_comments, comment_spots):
+        nodes[spot % len(nodes)]["_cm"] += cm
     if blanks and fancy and n >= 2 and draw(st.integers(0, 11)) == 0:
         # an unlabelled leaf "(A,,B)": legal Newick, read as a node without taxon
         # (never the last child: DendroPy drops "(A,)"'s trailing blank, a Newick round-trip matter, not C20's)
@@ -245,6 +273,8 @@ def newick_docs(draw, max_taxa=6, max_trees=3, fancy=True, plain_labels=False):
     for i in range(ntrees):
         spec = draw(tree_specs(list(range(ntax)), max_leaves=max_taxa, fancy=fancy))
         rtext, rooted = draw(st.sampled_from(ROOTING))
+        if fancy and draw(st.integers(0, 3)) == 0:
+            rtext += draw(meta_comments())     # tree-level metadata
         s = draw(newick_text(spec, texts, fancy))
         if s == "":
             # a single unlabelled node cannot be written; give it its taxon back
@@ -535,6 +565,8 @@ def _nexus_trees_block(draw, block_index, taxa, labels, label_texts, numbered, f
     for _ in range(draw(st.integers(1, max_trees))):
         spec = draw(tree_specs(list(taxa), max_leaves=max_leaves, fancy=fancy))
         rtext, rooted = draw(st.sampled_from(ROOTING))
+        if fancy and draw(st.integers(0, 3)) == 0:
+            rtext += draw(meta_comments())     # tree-level metadata
         s = draw(newick_text(spec, leaf_text, fancy))
         if s == "":
             spec["t"] = taxa[0]
@@ -771,7 +803,7 @@ ALPHABET = {
 SOUP_TOKENS = {
     "newick": ["(", ")", ",", ":", ";", "(", ")", ",", "A", "B", "C", "a", "'q r'", "'", "[", "]", "[&R]", "[&U]",
                "[c]", "[&m=1]", "[&=]", "[&x={1,2}]", "1", "0.5", "1e-3", "-", "e", "_", "x_y", "''", "'it''s'",
-               "{", "}", "{1}", "=", "\"", "*", "#", "&", "[&&NHX:a=b]", "[&W 1/2]", "[&W x]"],
+               "{", "}", "{1}", "=", "\"", "*", "#", "&", "[&&NHX:a=b]", "[&W 1/2]", "[&W x]", "[&x= ]", "[&k=]", "[&a={1,2]", "[&a= ,b=2]", "[&={}]"],
     "nexus": ["#NEXUS", "BEGIN", "END", "ENDBLOCK", ";", ";", ";", "TAXA", "CHARACTERS", "DATA", "TREES", "SETS",
               "ASSUMPTIONS", "CODONS", "FOO", "TITLE", "LINK", "DIMENSIONS", "NTAX", "NCHAR", "=", "=", "1", "2", "3",
               "10", "FORMAT", "DATATYPE", "DNA", "STANDARD", "CONTINUOUS", "PROTEIN", "SYMBOLS", "\"", "01", "GAP",
